@@ -68,7 +68,7 @@ Inductive as_step :=
 
 Inductive as_result :=
 | AS_Found (came : list (nat * option (nat * nat))) (cost : list (nat * Z)) (margin : option Z)
-| AS_NotFound          (* PathFindingError, pathfinding.py:50 *)
+| AS_NotFound (margin : option Z)   (* PathFindingError, pathfinding.py:50 *)
 | AS_Err.              (* KeyError on cost_so_far[current]: not reachable, see Proofs *)
 
 Section AStar.
@@ -107,10 +107,10 @@ Section AStar.
   (* pathfinding.py:29-52; [fuel] = maxits *)
   Fixpoint as_loop (fuel : nat) (st : as_state) : as_result :=
     match fuel with
-    | O => AS_NotFound                                                      (* range exhausted -> :50 *)
+    | O => AS_NotFound (as_margin st)                                       (* range exhausted -> :50 *)
     | S f =>
       match as_pq_get (as_frontier st) with
-      | None => AS_NotFound                                                 (* :30-31 break -> :50 *)
+      | None => AS_NotFound (as_margin st)                                  (* :30-31 break -> :50 *)
       | Some ((p, cur), rest) =>
         let mg := as_pop_margin (as_margin st) p rest in
         if (cur =? goal)%nat then AS_Found (as_came st) (as_cost st) mg     (* :34-35 *)
@@ -154,7 +154,7 @@ Definition as_backward (came : list (nat * option (nat * nat))) (start goal : na
 
 Inductive as_path_result :=
 | AS_Path (nodes edges : list nat) (margin : option Z)
-| AS_PathFindingError
+| AS_PathFindingError (margin : option Z)
 | AS_Crash.     (* KeyError / endless loop: shown unreachable in Proofs/AStarFacts.v *)
 
 (* pathfinding.py:127-129 / 173-175 *)
@@ -166,7 +166,7 @@ Definition as_path (adj : nat -> list (nat * nat)) (h : nat -> nat -> Z)
     | Some (ns, es) => AS_Path ns es mg
     | None => AS_Crash
     end
-  | AS_NotFound => AS_PathFindingError
+  | AS_NotFound mg => AS_PathFindingError mg
   | AS_Err => AS_Crash
   end.
 
